@@ -21,7 +21,9 @@ earlier ones), round 4 (`-4`; prompts named all three; C01 and C05 prompts carri
 from objective-only changes / the loopless option, see the rows). First-try detection by the quick tier: round 1 16/20,
 round 2 13/20, round 3 14/20 (13 by the property's own check, C01-3 by C03 - see its row), round 4 12/20, round 5
 (`-5`) C01-C10 5/10, round 6 (`-6`, C01-C10 only) 6/10 with one documented miss (C04-6: fluxes below the solver
-tolerance, see its row and the ASSUMPTIONS of C04). The author of C01-6 also reported a defect of the unchanged tree
+tolerance, see its row and the ASSUMPTIONS of C04); session 3: round 5 for C11-C20 5/10 (C12, C13, C15, C19, C20 directly),
+round 6 for C11-C20 6/10 and round 7 for C01-C10 8/10 (C01-7 by C02 - see its row - and C07-7 after strengthening); every
+one of these 30 is caught by the committed checks. The author of C01-6 also reported a defect of the unchanged tree
 (Reaction.copy of a reaction outside the model), which was confirmed, fixed (5baf313) and is now generated
 (`detached_arith`). Seeded change C07-5 relied on a genuine defect of the unchanged tree (`GPR.eval` given a
 string), which was fixed (13ae901) - see its row; the legacy-note dimension added for C10-5 exposed genuine finding
@@ -33,7 +35,10 @@ evaluated, an objective row that binds below the optimum, solver history, LP row
 background, identifiers shared across object kinds, the model's own objects as arguments, repeated metabolites in a
 reaction string, two different lists for double deletions, identifiers that contain one another, every documented
 argument form of `GPR.eval`, alternating single-bound assignments, legacy note keys, constraints named after
-reactions, explicitly empty lists, duplicate species references in third-party documents. Two changes stay undetected by construction
+reactions, explicitly empty lists, duplicate species references in third-party documents, rules longer than 100
+characters, FVA options under schedules, several calls on one parallel sampler object, bystander sampler objects,
+one-sided bound caps, trace requirements and a forced objective flux for media, pure calls before knock-outs, shared
+metadata containers of object copies, failures that do not repeat. Two changes stay undetected by construction
 and are documented as such: C03-2 (superseded: the repository fix 3c235ca removed the code path) and C05-2 (masked by
 known finding `loopless-fva-inexact`).
 
